@@ -247,7 +247,7 @@ var nodeNames = [...]string{
 	NodeUnique:              "unique",
 	NodeRefine:              "refine",
 	NodeBase:                "base",
-	NodeYinElement:          "yin",
+	NodeYinElement:          "yin-element",
 	NodeValue:               "value",
 	NodePosition:            "position",
 	NodeFractionDigits:      "fraction-digits",
